@@ -257,11 +257,26 @@ theorem restoreFile_frame (H : Bytes → Digest) (v : Variant) (digest : Digest)
       | old => exact createFile_diverge c a b r r' hab content none fs fs'' hl
       | fixed =>
         simp only at hl
+        -- optional removal of a symlink / directory at the destination, then MkdirAll(parent), then create
+        have tail : ∀ fs0 : Entry, fs0.get (c ++ b :: r') = fs.get (c ++ b :: r') →
+            (match mkdirAll fs0 (parentOf (c ++ a :: r)) with
+              | .error e => Except.error e
+              | .ok fs1 => createFile fs1 (c ++ a :: r) content (some exec)) = .ok fs'' →
+            fs''.get (c ++ b :: r') = fs.get (c ++ b :: r') := by
+          intro fs0 h0 ht
+          split at ht
+          · simp at ht
+          · rename_i fs1 h1
+            rw [createFile_diverge c a b r r' hab content (some exec) fs1 fs'' ht,
+              mkdirAll_parent_diverge c a b r r' hab fs0 fs1 h1, h0]
         split at hl
         · simp at hl
-        · rename_i fs1 h1
-          rw [createFile_diverge c a b r r' hab content (some exec) fs1 fs'' hl]
-          exact mkdirAll_parent_diverge c a b r r' hab fs fs1 h1
+        · rename_i fs0 hcl
+          refine tail fs0 ?_ hl
+          split at hcl
+          · exact removeAll_diverge c a b r r' hab fs fs0 hcl
+          · exact removeAll_diverge c a b r r' hab fs fs0 hcl
+          · simp at hcl; rw [← hcl]
   unfold restoreFile at h
   split at h
   · split at h
